@@ -163,7 +163,7 @@ def run_mem(rep, strict_diff):
         if f.is_file(): f.unlink()
     harness = V.build_harness("C01_design")
     driver = V.build_model("NM")
-    n, budget = (24, 250000) if rep.tier == "quick" else (200, 1000000)
+    n, budget = (40, 250000) if rep.tier == "quick" else (240, 1000000)
     pairs, progs = [], []
     for i in range(n):
         a = memgen.gen_mem_design(rep.seed * 910003 + i, f"MA{i}")
@@ -190,6 +190,16 @@ def run_mem(rep, strict_diff):
                 viol.append(dict(kind="decoration changes the reset schedule of a memory design", variant=v, programA=prog[ia], programB=prog[ib], decorations=ap)); continue
             comparable += 1
             cmds.append(f"cert {'strict' if v == 'pre' else 'compat'} {work}/{ia}.{v}.net {work}/{ib}.{v}.net {work}/{ia}.{v}.trace {budget}")
+            if v == "def" and sched(work / f"{ia}.pre.trace") == sched(work / f"{ib}.def.trace"):
+                # the decorated twin after post-processing against the PLAIN design as constructed (C01's condition across the twin)
+                cmds.append(f"cert refine {work}/{ia}.pre.net {work}/{ib}.def.net {work}/{ia}.pre.trace {budget}")
+                tpa = circ.parse_traces(work / f"{ia}.pre.trace")
+                for tag, x in tpa.items():
+                    y = tb.get(tag.replace(f"{ia}.pre", f"{ib}.def"))
+                    d = circ.direct_diff(x, y) if y else None
+                    if d:
+                        viol.append(dict(kind="decorated memory twin after post-processing differs from the plain design as constructed (real traces)", variant="pre-vs-def",
+                                         programA=prog[ia], programB=prog[ib], decorations=ap, stimulus=circ.stim_of(x), real_simulator=d)); break
             for tag, x in ta.items():
                 y = tb.get(tag.replace(f"{ia}.", f"{ib}."))
                 d = (strict_diff(x, y) if v == "pre" else circ.direct_diff(x, y)) if y else None
@@ -212,9 +222,12 @@ def run_mem(rep, strict_diff):
         cex = work / "cex"; cex.mkdir(exist_ok=True)
         G.write_programs(cex / "designs.txt", [prog[ia], prog[ib]])
         open(cex / "stim.txt", "w").write(f"{ia} {stim}\n{ib} {stim}\n")
-        circ.run_harness(harness, str(cex / "designs.txt"), str(cex), va, replay_stim=str(cex / "stim.txt"))
-        x = circ.parse_traces(cex / f"{ia}.{va}.trace").get(f"{ia}.{va} replay"); y = circ.parse_traces(cex / f"{ib}.{va}.trace").get(f"{ib}.{va} replay")
-        real = (strict_diff(x, y) if va == "pre" else circ.direct_diff(x, y)) if x and y else None
+        vb = fb.rsplit(".", 2)[1]
+        circ.run_harness(harness, str(cex / "designs.txt"), str(cex), ",".join(sorted({va, vb})), replay_stim=str(cex / "stim.txt"))
+        x = circ.parse_traces(cex / f"{ia}.{va}.trace").get(f"{ia}.{va} replay"); y = circ.parse_traces(cex / f"{ib}.{vb}.trace").get(f"{ib}.{vb} replay")
+        real = (strict_diff(x, y) if (va == "pre" and vb == "pre") else circ.direct_diff(x, y)) if x and y else None
+        if real is None and x and y and "clean=true" in l and x["cycles"][-1][1] != y["cycles"][-1][1]:
+            real = dict(kind="A's run free of undefined values but B differs", A=x["cycles"][-1][1], B=y["cycles"][-1][1])
         if real:
             viol.append(dict(kind="memory decoration twins differ (product BFS counterexample confirmed on the real simulator)", variant=va,
                              programA=prog[ia], programB=prog[ib], stimulus=stim, real_simulator=real, model=l)); seen.add(f"design {ia}")
